@@ -48,6 +48,8 @@ VALUES: Dict[str, Dict[str, Any]] = {
     # A_FLOAT64 values of magnitude 4e9 that differ by 1 and by 2: equal means |expected - value| < 1e-8 (an ABSOLUTE
     # tolerance); any relative tolerance >= 2.5e-10 would confuse them
     "f64big": {"V1": 4000000000.0, "V2": 4000000001.0, "other": 4000000002.0},
+    # 64-bit unsigned integers (serial numbers) that differ only in bits a double cannot hold: integers are compared exactly
+    "u64": {"V1": 2**63, "V2": 2**63 + 1, "other": 2**63 + 2},
 }
 # A possibly empty payload would make the positive response as short as the negative response `7F 22 31`, which odxtools
 # then decodes with the positive response under a constant-mismatch warning (DON'T-CARE): these services carry a constant
@@ -55,8 +57,8 @@ VALUES: Dict[str, Dict[str, Any]] = {
 PADDED_TYPES = ("asciiz", "bytesz")
 KIND = {"u8z": "u8", "floatz": "float", "asciiz": "ascii", "bytesz": "bytes",  # comparison kind of the falsy variants
         "byteslc": "bytes", "dtclc": "dtc",  # ... and of the lower-case spelled ones
-        "f64big": "float"}
-QUICK_FEW_LAYOUT_TYPES = ("byteslc", "dtclc", "f64big")  # quick: only at an SNREF leaf, in a structure and in a field
+        "f64big": "float", "u64": "u8"}
+QUICK_FEW_LAYOUT_TYPES = ("byteslc", "dtclc", "f64big", "u64")  # quick: only at an SNREF leaf, in a structure and in a field
 GSID = 0x22  # the request SID echoed in the negative response; the GLOBAL-NEG-RESPONSE exposes it as parameter `gsid`
 LOWER_CASE_TYPES = ("byteslc", "dtclc")
 BASE_LAYOUTS = ("top", "toppath", "struct", "field", "tstruct")
@@ -116,6 +118,8 @@ def value_equals(typ: str, expected: str, v: Any) -> bool:
 def wire(typ: str, v: Any) -> bytes:
     if typ == "f64big":
         return struct.pack(">d", v)
+    if typ == "u64":
+        return int(v).to_bytes(8, "big")
     if typ == "asciiz":
         return v.encode("latin-1") + b"\x00"  # MIN-MAX-LENGTH, ZERO termination (always sent, also at the end of the PDU)
     if typ == "bytesz":
